@@ -1,6 +1,6 @@
 (* C18 — proofs about Model/Streaming.v *)
 From PG Require Import Lib.Strs Model.Streaming.
-From Coq Require Import Lia.
+From Coq Require Import Lia ZifyBool Zify.
 
 (* ====================== A. the splitlines scanner ====================== *)
 Lemma is_nl_13 : is_nl 13 = true. Proof. reflexivity. Qed.
@@ -653,6 +653,97 @@ Section Round.
   Qed.
 End Round.
 
+#[local] Ltac Zify.zify_post_hook ::= Z.to_euclidean_division_equations.
+
+(* ====================== F. a UTF-8 encoder, and decode (encode s) = s ====================== *)
+Definition utf8_enc1 (c : N) : bytes :=
+  if c <? 128 then [c]
+  else if c <? 2048 then [192 + c / 64; 128 + c mod 64]
+  else if c <? 65536 then [224 + c / 4096; 128 + (c / 64) mod 64; 128 + c mod 64]
+  else [240 + c / 262144; 128 + (c / 4096) mod 64; 128 + (c / 64) mod 64; 128 + c mod 64].
+Definition utf8_encode (s : str) : bytes := flat_map utf8_enc1 s.
+(* Unicode scalar values *)
+Definition valid_cp (c : N) : bool := (c <? 55296) || ((57343 <? c) && (c <? 1114112)).
+
+Lemma classify1_char : forall b0, b0 < 128 -> classify [b0] = UChar b0.
+Proof. intros b0 H. unfold classify. destruct (b0 <? 128) eqn:E; [reflexivity | lia]. Qed.
+
+Lemma classify1_more : forall b0, 194 <= b0 <= 244 -> classify [b0] = UMore.
+Proof.
+  intros b0 H. unfold classify, in_rng. destruct (b0 <? 128) eqn:E; [lia|].
+  destruct ((194 <=? b0) && (b0 <=? 244)) eqn:E2; [reflexivity | lia].
+Qed.
+
+Lemma second_ok_true : forall b0 b1,
+  128 <= b1 <= 191 ->
+  (b0 = 224 -> 160 <= b1) -> (b0 = 237 -> b1 <= 159) -> (b0 = 240 -> 144 <= b1) -> (b0 = 244 -> b1 <= 143) ->
+  second_ok b0 b1 = true.
+Proof.
+  intros b0 b1 H H1 H2 H3 H4. unfold second_ok, is_cont, in_rng.
+  destruct (b0 =? 224) eqn:E1; [lia|]. destruct (b0 =? 237) eqn:E2; [lia|].
+  destruct (b0 =? 240) eqn:E3; [lia|]. destruct (b0 =? 244) eqn:E4; lia.
+Qed.
+
+Lemma classify2_char : forall b0 b1, b0 < 224 -> second_ok b0 b1 = true ->
+  classify [b0; b1] = UChar ((b0 - 192) * 64 + (b1 - 128)).
+Proof. intros b0 b1 H H2. unfold classify. rewrite H2. destruct (b0 <? 224) eqn:E; [reflexivity | lia]. Qed.
+
+Lemma classify2_more : forall b0 b1, 224 <= b0 -> second_ok b0 b1 = true -> classify [b0; b1] = UMore.
+Proof. intros b0 b1 H H2. unfold classify. rewrite H2. destruct (b0 <? 224) eqn:E; [lia | reflexivity]. Qed.
+
+Lemma classify3_char : forall b0 b1 b2, b0 < 240 -> 128 <= b2 <= 191 ->
+  classify [b0; b1; b2] = UChar ((b0 - 224) * 4096 + (b1 - 128) * 64 + (b2 - 128)).
+Proof.
+  intros b0 b1 b2 H H2. unfold classify, is_cont, in_rng.
+  destruct ((128 <=? b2) && (b2 <=? 191)) eqn:E; [|lia]. destruct (b0 <? 240) eqn:E2; [reflexivity | lia].
+Qed.
+
+Lemma classify3_more : forall b0 b1 b2, 240 <= b0 -> 128 <= b2 <= 191 -> classify [b0; b1; b2] = UMore.
+Proof.
+  intros b0 b1 b2 H H2. unfold classify, is_cont, in_rng.
+  destruct ((128 <=? b2) && (b2 <=? 191)) eqn:E; [|lia]. destruct (b0 <? 240) eqn:E2; [lia | reflexivity].
+Qed.
+
+Lemma classify4_char : forall b0 b1 b2 b3, 128 <= b3 <= 191 ->
+  classify [b0; b1; b2; b3] = UChar ((b0 - 240) * 262144 + (b1 - 128) * 4096 + (b2 - 128) * 64 + (b3 - 128)).
+Proof.
+  intros b0 b1 b2 b3 H. unfold classify, is_cont, in_rng.
+  destruct ((128 <=? b3) && (b3 <=? 191)) eqn:E; [reflexivity | lia].
+Qed.
+
+Lemma u_run_enc1 : forall c r, valid_cp c = true ->
+  u_run [] (utf8_enc1 c ++ r) = match u_run [] r with Some (p, s) => Some (p, c :: s) | None => None end.
+Proof.
+  intros c r V. unfold valid_cp in V. unfold utf8_enc1.
+  destruct (c <? 128) eqn:E1; [|destruct (c <? 2048) eqn:E2; [|destruct (c <? 65536) eqn:E3]]; cbn [app u_run].
+  - rewrite classify1_char by lia. reflexivity.
+  - rewrite classify1_more by lia. cbn [app u_run].
+    rewrite classify2_char by (try apply second_ok_true; lia).
+    replace ((192 + c / 64 - 192) * 64 + (128 + c mod 64 - 128)) with c by lia. reflexivity.
+  - rewrite classify1_more by lia. cbn [app u_run].
+    rewrite classify2_more by (try apply second_ok_true; lia). cbn [app u_run].
+    rewrite classify3_char by lia.
+    replace ((224 + c / 4096 - 224) * 4096 + (128 + (c / 64) mod 64 - 128) * 64 + (128 + c mod 64 - 128)) with c by lia.
+    reflexivity.
+  - rewrite classify1_more by lia. cbn [app u_run].
+    rewrite classify2_more by (try apply second_ok_true; lia). cbn [app u_run].
+    rewrite classify3_more by lia. cbn [app u_run].
+    rewrite classify4_char by lia.
+    replace ((240 + c / 262144 - 240) * 262144 + (128 + (c / 4096) mod 64 - 128) * 4096
+             + (128 + (c / 64) mod 64 - 128) * 64 + (128 + c mod 64 - 128)) with c by lia.
+    reflexivity.
+Qed.
+
+Lemma u_run_encode : forall s, forallb valid_cp s = true -> u_run [] (utf8_encode s) = Some ([], s).
+Proof.
+  induction s as [|c s IH]; intros H; [reflexivity|]. cbn [forallb] in H. apply andb_true_iff in H.
+  destruct H as [Hc Hs]. unfold utf8_encode in *. cbn [flat_map]. rewrite u_run_enc1 by exact Hc.
+  rewrite IH by exact Hs. reflexivity.
+Qed.
+
+Theorem utf8_decode_encode : forall s, forallb valid_cp s = true -> utf8_decode (utf8_encode s) = Some s.
+Proof. intros s H. unfold utf8_decode. rewrite u_run_encode by exact H. cbn [u_flush]. rewrite app_nil_r. reflexivity. Qed.
+
 (* byte level, any chunking: if the stream is the UTF-8 encoding of what the sender wrote, the events come back *)
 Theorem sse_roundtrip : forall (py_int : str -> option Z),
   (forall ds, ds <> [] -> forallb is_digit ds = true -> py_int ds = Some (digits_val ds)) ->
@@ -668,6 +759,19 @@ Proof.
   split; [exact E|]. unfold iter_sse_events_text. rewrite E. f_equal. unfold events_text. clear E.
   induction (map expected bs) as [|e es IH]; [reflexivity|]. cbn [filter map].
   destruct (nonemptyb (e_data e)); cbn [map]; rewrite IH; reflexivity.
+Qed.
+
+
+(* with the encoder: for every chunking of the encoded bytes themselves *)
+Theorem sse_roundtrip_bytes : forall (py_int : str -> option Z),
+  (forall ds, ds <> [] -> forallb is_digit ds = true -> py_int ds = Some (digits_val ds)) ->
+  forall t k bs cs, guard bs = true -> forallb valid_cp (encode t k bs) = true ->
+  concat cs = utf8_encode (encode t k bs) ->
+  iter_sse py_int cs = Some (map expected bs) /\
+  iter_sse_events_text py_int cs = Some (filter nonemptyb (map e_data (map expected bs))).
+Proof.
+  intros py_int Hint t k bs cs G V H. apply (sse_roundtrip py_int Hint t k bs cs G).
+  rewrite H. apply utf8_decode_encode. exact V.
 Qed.
 
 (* NDJSON: one record per line, any of the three terminators, records come back in order *)
@@ -717,3 +821,12 @@ Lemma refuted_F18b :
   guard_dom bs_F18b = true /\ guard_F18a bs_F18b = true /\ guard_F18b bs_F18b = false /\
   forall py_int, sse_of_lines py_int (splitlines (encode LF TFull bs_F18b)) <> map expected bs_F18b.
 Proof. repeat split; try (vm_compute; reflexivity). intros py_int H. vm_compute in H. discriminate H. Qed.
+
+(* NDJSON: a record whose JSON text contains a raw U+2028 never reaches json.loads in one piece *)
+Definition nd_line_F18a : str := [34; 97; 8232; 98; 34].           (* "a<U+2028>b" with its quotes *)
+Definition jl_F18a (s : str) : option N := if str_eqb s nd_line_F18a then Some 1 else None.
+Lemma refuted_F18a_ndjson :
+  guard_nd_F18a [nd_line_F18a] = false /\ forallb no_crlf [nd_line_F18a] = true /\
+  strip nd_line_F18a <> [] /\ jl_F18a (strip nd_line_F18a) = Some 1 /\
+  ndjson_of_lines N jl_F18a (splitlines (enc_lines LF [nd_line_F18a])) = ([], true).
+Proof. repeat split; try (vm_compute; reflexivity). vm_compute. discriminate. Qed.
